@@ -38,7 +38,9 @@ THEOREMS = [
     "Aio.C02.response_roundtrip_chunked",
     "Aio.C02.failed_source_no_terminator",
 ]
-RULE = ("(flow scenarios, run first: small read buffers on the receiving side x chunked/Content-Length bodies above the high-water "
+RULE = ("(early responses: handler returns 401/403/413 without reading the body or after reading a prefix, uploads of 3 KB-300 KB "
+        "in many segments, Content-Length and chunked, bytes and async-generator sources, lingering_time default and 0, followed by a "
+        "non-idempotent request on the same session; size-limit lines cut between CR and LF.) (flow scenarios, run first: small read buffers on the receiving side x chunked/Content-Length bodies above the high-water "
         "mark x segmentations cutting chunks mid-data (targeted: pause in the middle of a chunk, rest of the message in one read; random "
         "k-byte / cut / random segments) x incremental consumers with sleeps, both directions; sock_read timer with a consumer away "
         "longer than the timeout while aiohttp paused the transport; uploads whose async-generator / file-like source raises part-way, "
@@ -78,6 +80,12 @@ TRUSTED_BASE = [
     "(their output is taken as 'what was sent')",
 ]
 ASSUMPTIONS = [
+    "early-response scenarios (handler answers without reading the whole body while the upload is in flight): the client always "
+    "finishes sending within lingering_time (virtual time); a response that announces keep-alive (HTTP/1.1, no Connection: close) "
+    "which the client accepts must leave the connection usable for the next request; with the non-default lingering_time=0 the "
+    "unchanged server closes such a connection after having announced keep-alive (known finding C02-F27a/b)",
+    "crlfcut scenarios: a start/field line of exactly the size limit (8190 and a configured 200) cut between its CR and LF must be "
+    "accepted exactly like the unsegmented message, both directions",
     "body-never-completes signatures carry where the stream stood at the reader's last pause request (pause-mid-chunk / "
     "pause-at-chunk-boundary): the boundary variant is a known finding of the unchanged tree (C02-F26a/b), the mid-chunk variant is not",
     "flow scenarios: read_bufsize in {256,1024,4096} on the receiving side, bodies 1.5x-12x the high-water mark, consumers reading "
